@@ -6,6 +6,7 @@ CONSTANTS
   PatchKinds = {"plain2", "loop", "ret"}
   FnLayouts = {"none", "one"}
   EndSyms = {TRUE, FALSE}
+  NoSyms = {FALSE}
   AnnModes = {"none"}
   WithProxyDel = TRUE
   CfiLayouts = {"none"}
